@@ -24,12 +24,13 @@ def upOne : Zipper → Zipper
   | f :: p :: rest => { name := p.name, left := p.left ++ f.close :: p.right, right := [] } :: rest
   | z => z
 
+/-- pop `k` times -/
+def upN : Nat → Zipper → Zipper
+  | 0, z => z
+  | k + 1, z => upN k (upOne z)
+
 /-- pop until at most `n` frames are open (`dfs` popping down to the parent's hierarchy) -/
-def closeTo (n : Nat) : Zipper → Zipper
-  | f :: p :: rest => if (f :: p :: rest).length ≤ n then f :: p :: rest else closeTo n (upOne (f :: p :: rest))
-  | z => z
-termination_by z => z.length
-decreasing_by simp [upOne]
+def closeTo (n : Nat) (z : Zipper) : Zipper := upN (z.length - n) z
 
 /-- the finished root -/
 def closeAll (z : Zipper) : Option T :=
@@ -82,20 +83,23 @@ def GState.finishCur (s : GState) : List T :=
     | some t => s.done ++ [t]
     | none => s.done
 
+/-- what the generators do with a parsed item (hierarchy, text) of row `row` -/
+def addItem (s : GState) (h : Nat) (text row : Bytes) : Except GErr GState :=
+  if h == 1 then
+    .ok { s with done := s.finishCur, cur := some [{ name := text, left := [], right := [] }] }
+  else match s.cur with
+    | none => .error .nilStack
+    | some z => match dfs h text z with
+      | none => .error (.format row)
+      | some z' => .ok { s with cur := some z' }
+
 /-- one row of `rootGeneratorSimple.generate` / `generateIter` -/
 def genStep (s : GState) (row : Bytes) : Except GErr GState :=
   match parse s.p row with
   | (p', .error .blank) => .ok { s with p := p' }
   | (_, .error .emptyText) => .error .emptyText
   | (_, .error .incorrect) => .error (.format row)
-  | (p', .ok (h, text)) =>
-    if h == 1 then
-      .ok { p := p', done := s.finishCur, cur := some [{ name := text, left := [], right := [] }] }
-    else match s.cur with
-      | none => .error .nilStack
-      | some z => match dfs h text z with
-        | none => .error (.format row)
-        | some z' => .ok { s with p := p', cur := some z' }
+  | (p', .ok (h, text)) => addItem { s with p := p' } h text row
 
 /-- fold over the rows; on an error, keep the state reached before the failing row -/
 def genRows : GState → List Bytes → GState × Option GErr
